@@ -1,39 +1,136 @@
-// Pipeline V recorder for C18: runs the serialisation / parsing scenarios once in the current environment and logs a
-// digest of every output.  Heap fill comes from MALLOC_PERTURB_ (set by the runner), automatic-variable fill from
-// paint() before every scenario; the runner repeats this with different fills, compilers and ASLR settings.
+// Pipeline V recorder for C18: runs the serialisation / parsing scenarios once in the current environment and logs a digest of
+// every output: the bytes every serialiser produces, and a canonical field-by-field dump of every structure a parser returns.
+// Heap fill comes from MALLOC_PERTURB_ (set by the runner), automatic-variable fill from paint() before every scenario; the
+// runner repeats this with different fills, compilers and address-space layouts (tools/parts.py: c18), and
+// spec/Trace_Determinism.tla requires every observation of a scenario to equal the first one.
 //   det_rec --env NAME --paint 165 --workdir DIR
 #include "OP2Utility.h"
 #include "Sprite/TilesetLoader.h"
 #include "Stream/DynamicMemoryWriter.h"
+#include "Map/MapHeader.h"
 #include <nlohmann/json.hpp>
 #include <cstring>
 #include <filesystem>
 #include <fstream>
 #include <iostream>
-using namespace OP2Utility; using json = nlohmann::json; namespace fs = std::filesystem;
-static std::string ENVN, WORK; static unsigned char PAINT = 0;
-__attribute__((noinline)) static void paint() { volatile unsigned char a[96 * 1024]; for (std::size_t i = 0; i < sizeof(a); ++i) a[i] = PAINT; }
-static std::string digest(const std::vector<unsigned char>& b) { unsigned long long h = 1469598103934665603ull; for (unsigned char c : b) { h ^= c; h *= 1099511628211ull; } char buf[40]; snprintf(buf, sizeof buf, "%016llx:%zu", h, b.size()); return buf; }
-static void observe(const std::string& sc, const std::vector<unsigned char>& b) { std::cout << json{{"e", "Observe"}, {"sc", sc}, {"env", ENVN}, {"d", digest(b)}}.dump() << std::endl; }
-static std::vector<unsigned char> bytes(Stream::DynamicMemoryWriter& w) { auto r = w.GetReader(); std::vector<unsigned char> b(r.Length()); if (!b.empty()) r.Read(b.data(), b.size()); return b; }
-static std::vector<unsigned char> slurp(const std::string& p) { std::ifstream f(p, std::ios::binary); return std::vector<unsigned char>((std::istreambuf_iterator<char>(f)), {}); }
-static void spit(const std::string& p, const std::string& s) { fs::create_directories(fs::path(p).parent_path()); std::ofstream f(p, std::ios::binary); f.write(s.data(), (std::streamsize)s.size()); }
-// each scenario lives in its own non-inlined function so that its locals occupy freshly painted stack
-__attribute__((noinline)) static void sc_map_default() { Map m; Stream::DynamicMemoryWriter w; m.Write(w); observe("map.default.write", bytes(w)); }
-__attribute__((noinline)) static void sc_art_default() { ArtFile a; Stream::DynamicMemoryWriter w; a.Write(w); observe("prt.default.write", bytes(w)); }
-__attribute__((noinline)) static void sc_bmp_factory() { for (int bc : {1, 4, 8}) { auto b = BitmapFile::CreateIndexed((uint16_t)bc, 5, -3); Stream::DynamicMemoryWriter w; b.WriteIndexed(w); observe("bmp.factory." + std::to_string(bc), bytes(w)); } }
-__attribute__((noinline)) static void sc_tileset() { auto b = BitmapFile::CreateIndexed(8, 32, 32); for (std::size_t i = 0; i < b.pixels.size(); ++i) b.pixels[i] = (uint8_t)(i * 7); Stream::DynamicMemoryWriter w; Tileset::WriteCustomTileset(w, b); observe("tileset.custom.write", bytes(w)); }
-__attribute__((noinline)) static void sc_map_parse() { Stream::DynamicMemoryWriter w0; { Map m; m.tiles.resize(0); w0.Write("\x11\x10\0\0\0\0\0\0\0\0\0\0\0\0\0\0\0\0\0\0", 20); char z[16] = {1, 2, 3}; w0.Write(z, 16); w0.Write("TILE SET\x1a", 10); uint32_t v = 0; w0.Write(v); w0.Write(v); v = 0x1011; w0.Write(v); w0.Write(v); v = 0; w0.Write(v); w0.Write(v); }
-	auto in = bytes(w0); Stream::MemoryReader r(in.data(), in.size()); Map m = Map::ReadMap(r); Stream::DynamicMemoryWriter w; m.Write(w); observe("map.parse.rewrite", bytes(w)); }
-__attribute__((noinline)) static void sc_vol(bool reversed, bool dotslash) { std::string d = "vin"; spit(d + "/b.txt", "BBBBB"); spit(d + "/A_.x", "12"); spit(d + "/sub/ab", ""); std::string pre = dotslash ? "./" : "";
-	std::vector<std::string> in{pre + d + "/b.txt", pre + d + "/A_.x", pre + d + "/sub/ab"}; if (reversed) std::swap(in[0], in[2]); std::string out = "o.vol"; Archive::VolFile::CreateArchive(out, in); observe("vol.create", slurp(out));
-	Archive::VolFile v(out); v.ExtractFile(2, "ex.bin"); observe("vol.extract", slurp("ex.bin")); }
-__attribute__((noinline)) static void sc_clm(bool reversed) { auto le = [](std::string& o, unsigned long long v, int n) { for (int i = 0; i < n; ++i) o.push_back((char)(v >> (8 * i))); };
-	auto wav = [&](const std::string& data) { std::string w = "RIFF"; le(w, 36 + data.size(), 4); w += "WAVEfmt "; le(w, 16, 4); le(w, 1, 2); le(w, 1, 2); le(w, 22050, 4); le(w, 44100, 4); le(w, 2, 2); le(w, 16, 2); w += "data"; le(w, data.size(), 4); return w + data; };
-	std::string d = "cin"; spit(d + "/t1.wav", wav("AAAA")); spit(d + "/T2.wav", wav("BBBBBB")); std::vector<std::string> in{d + "/t1.wav", d + "/T2.wav"}; if (reversed) std::swap(in[0], in[1]);
-	std::string out = "o.clm"; Archive::ClmFile::CreateArchive(out, in); observe("clm.create", slurp(out)); Archive::ClmFile c(out); c.ExtractFile(1, "ex.wav"); observe("clm.extract", slurp("ex.wav")); }
-int main(int argc, char** argv) { for (int i = 1; i + 1 < argc; ++i) { std::string a = argv[i], v = argv[i + 1]; if (a == "--env") ENVN = v; else if (a == "--paint") PAINT = (unsigned char)atoi(v.c_str()); else if (a == "--workdir") WORK = v; }
-	fs::create_directories(WORK); fs::current_path(WORK); std::cout << json{{"e", "Reset"}, {"scenario", "environment " + ENVN}}.dump() << std::endl;
-	paint(); sc_map_default(); paint(); sc_art_default(); paint(); sc_bmp_factory(); paint(); sc_tileset(); paint(); sc_map_parse();
-	for (int k = 0; k < 4; ++k) { paint(); sc_vol(k & 1, k & 2); } for (int k = 0; k < 2; ++k) { paint(); sc_clm(k); }
-	return 0; }
+using namespace OP2Utility;
+using json = nlohmann::json;
+namespace fs = std::filesystem;
+using Bytes = std::vector<unsigned char>;
+
+static std::string ENVN, WORK;
+static unsigned char PAINT = 0;
+
+// fills a large stretch of the stack below the caller with the pattern: the next call's locals start out as this garbage
+__attribute__((noinline)) static void paint() {
+	volatile unsigned char a[160 * 1024];
+	for (std::size_t i = 0; i < sizeof(a); ++i) a[i] = PAINT;
+}
+static std::string digest(const Bytes& b) {
+	unsigned long long h = 1469598103934665603ull;
+	for (unsigned char c : b) { h ^= c; h *= 1099511628211ull; }
+	char buf[40]; snprintf(buf, sizeof buf, "%016llx:%zu", h, b.size());
+	return buf;
+}
+static void observe(const std::string& sc, const Bytes& b) {
+	std::cout << json{{"e", "Observe"}, {"sc", sc}, {"env", ENVN}, {"d", digest(b)}}.dump() << std::endl;
+}
+static Bytes bytes(Stream::DynamicMemoryWriter& w) { auto r = w.GetReader(); Bytes b(r.Length()); if (!b.empty()) r.Read(b.data(), b.size()); return b; }
+static Bytes slurp(const std::string& p) { std::ifstream f(p, std::ios::binary); return Bytes((std::istreambuf_iterator<char>(f)), {}); }
+static void spit(const std::string& p, const Bytes& s) { if (fs::path(p).has_parent_path()) fs::create_directories(fs::path(p).parent_path()); std::ofstream f(p, std::ios::binary); f.write((const char*)s.data(), (std::streamsize)s.size()); }
+static void spit(const std::string& p, const std::string& s) { spit(p, Bytes(s.begin(), s.end())); }
+
+// ---- canonical dumps of parsed structures (field by field: padding inside structs never enters) -----------------------------
+struct Dump {
+	Bytes b;
+	template <class T> void raw(const T& v) { const unsigned char* p = reinterpret_cast<const unsigned char*>(&v); b.insert(b.end(), p, p + sizeof(T)); }
+	void u(unsigned long long v) { for (int i = 0; i < 8; ++i) b.push_back((unsigned char)(v >> (8 * i))); }
+	void str(const std::string& s) { u(s.size()); b.insert(b.end(), s.begin(), s.end()); }
+	template <class V> void vec(const V& v) { u(v.size()); for (auto& x : v) raw(x); }
+};
+static Bytes dump(const Map& m) {
+	Dump d; d.u(m.GetVersionTag()); d.u(m.IsSavedGame()); d.u(m.WidthInTiles()); d.u(m.HeightInTiles()); d.vec(m.tiles); d.raw(m.clipRect);
+	d.u(m.tilesetSources.size()); for (auto& s : m.tilesetSources) { d.str(s.tilesetFilename); d.u(s.numTiles); }
+	d.vec(m.tileMappings); d.vec(m.terrainTypes);
+	d.u(m.tileGroups.size()); for (auto& g : m.tileGroups) { d.str(g.name); d.u(g.tileWidth); d.u(g.tileHeight); d.vec(g.mappingIndices); }
+	return d.b;
+}
+static Bytes dump(const BitmapFile& b) { Dump d; d.raw(b.bmpHeader); d.raw(b.imageHeader); d.vec(b.palette); d.vec(b.pixels); return d.b; }
+static Bytes dump(const ArtFile& a) {
+	Dump d; d.u(a.palettes.size()); for (auto& p : a.palettes) d.raw(p);
+	d.vec(a.imageMetas); d.u(a.unknownAnimationCount); d.u(a.animations.size());
+	for (auto& an : a.animations) { d.u(an.unknown); d.raw(an.selectionRect); d.raw(an.pixelDisplacement); d.u(an.unknown2); d.u(an.frames.size());
+		for (auto& f : an.frames) { d.raw(f.layerMetadata); d.raw(f.unknownBitfield); d.u(f.optional1); d.u(f.optional2); d.u(f.optional3); d.u(f.optional4); d.vec(f.layers); }
+		d.vec(an.unknownContainer); }
+	return d.b;
+}
+static Bytes dump(Archive::ArchiveFile& a) { Dump d; d.u(a.GetCount()); for (std::size_t i = 0; i < a.GetCount(); ++i) { d.str(a.GetName(i)); d.u(a.GetSize(i)); } return d.b; }
+
+// ---- inputs --------------------------------------------------------------------------------------------------------------------
+static void le(Bytes& o, unsigned long long v, int n) { for (int i = 0; i < n; ++i) o.push_back((unsigned char)(v >> (8 * i))); }
+static void tag(Bytes& o, const char* t) { o.insert(o.end(), t, t + strlen(t)); }
+// a 2 x 3 map: an unnamed tileset slot first, a named one, an unnamed one after it, mappings, one terrain type, two groups
+static Bytes map_image(bool saved) {
+	Bytes o; le(o, 0x1011, 4); le(o, saved ? 1 : 0, 4); le(o, 1, 4); le(o, 3, 4); le(o, 3, 4);
+	for (int i = 0; i < 6; ++i) le(o, 0x01020304u * (unsigned)(i + 1), 4);
+	for (int i = 0; i < 4; ++i) le(o, (unsigned)(i * 7 + 1), 4);
+	le(o, 0, 4);                                         // unnamed slot: no tile count follows
+	le(o, 8, 4); tag(o, "well0001"); le(o, 40, 4);       // named slot
+	le(o, 0, 4);                                         // unnamed slot after a named one
+	tag(o, "TILE SET\x1a"); o.push_back(0);
+	le(o, 2, 4); for (int i = 0; i < 8; ++i) le(o, (unsigned)(i + 1), 2);
+	le(o, 1, 4); for (int i = 0; i < 264; ++i) o.push_back((unsigned char)(i * 3));
+	return o;
+}
+static Bytes map_tail() { Bytes o; le(o, 0x1011, 4); le(o, 0x1011, 4); le(o, 2, 4); le(o, 1, 4);
+	le(o, 2, 4); le(o, 1, 4); le(o, 5, 4); le(o, 6, 4); le(o, 3, 4); tag(o, "abc");
+	le(o, 0, 4); le(o, 4, 4); le(o, 0, 4); return o; }
+static Bytes full_map() { Bytes o = map_image(false), t = map_tail(); o.insert(o.end(), t.begin(), t.end()); return o; }
+static Bytes saved_game() { Bytes o(0x1E025, 0); Bytes m = map_image(true); o.insert(o.end(), m.begin(), m.end()); le(o, 0x1011, 4);
+	le(o, 0, 4); le(o, 0, 4); le(o, 5, 4); le(o, 5, 4); le(o, 120, 4); le(o, 1, 4); le(o, 2, 4); o.insert(o.end(), 512 + 8, 0); le(o, 0, 4); le(o, 0, 4); o.insert(o.end(), 2047 * 120, 0); le(o, 0x1011, 4); return o; }
+static Bytes bmp_image() { Bytes o; tag(o, "BM"); le(o, 14 + 40 + 3 * 4 + 2 * 4, 4); le(o, 0, 4); le(o, 14 + 40 + 3 * 4, 4);
+	le(o, 40, 4); le(o, 5, 4); le(o, (unsigned)-2, 4); le(o, 1, 2); le(o, 4, 2); le(o, 0, 4); le(o, 0, 4); le(o, 0, 4); le(o, 0, 4); le(o, 3, 4); le(o, 0, 4);
+	for (int i = 0; i < 12; ++i) o.push_back((unsigned char)(i * 9 + 1)); for (int i = 0; i < 8; ++i) o.push_back((unsigned char)(0xF0 + i)); return o; }
+static Bytes prt_image() { Bytes o; tag(o, "CPAL"); le(o, 1, 4); tag(o, "PPAL"); le(o, 1048, 4); tag(o, "head"); le(o, 4, 4); le(o, 1, 4); tag(o, "data"); le(o, 1024, 4);
+	for (int i = 0; i < 1024; ++i) o.push_back((unsigned char)(i * 5 + 3));
+	le(o, 1, 4); le(o, 8, 4); le(o, 0, 4); le(o, 3, 4); le(o, 5, 4); le(o, 5, 2); le(o, 0, 2);
+	le(o, 1, 4); le(o, 2, 4); le(o, 1, 4); le(o, 9, 4);
+	le(o, 0x04030201, 4); for (int i = 0; i < 16; ++i) o.push_back((unsigned char)(i + 1)); for (int i = 0; i < 8; ++i) o.push_back((unsigned char)(101 + i)); le(o, 60, 4); le(o, 2, 4);
+	o.push_back(1); o.push_back(5); for (int i = 0; i < 8; ++i) o.push_back((unsigned char)(i + 20));          // frame 1: one layer, no optional bytes
+	o.push_back(0x80); o.push_back(0x85); o.push_back(11); o.push_back(12); o.push_back(13); o.push_back(14); // frame 2: no layers, both optional pairs
+	le(o, 1, 4); for (int i = 0; i < 16; ++i) o.push_back((unsigned char)(200 + i)); return o; }
+static Bytes wav(const std::string& data, bool extra) { Bytes w; tag(w, "RIFF"); le(w, 36 + data.size() + (extra ? 12 : 0), 4); tag(w, "WAVEfmt "); le(w, 16, 4); le(w, 1, 2); le(w, 1, 2); le(w, 22050, 4); le(w, 44100, 4); le(w, 2, 2); le(w, 16, 2);
+	tag(w, "data"); le(w, data.size(), 4); w.insert(w.end(), data.begin(), data.end()); if (extra) { tag(w, "LIST"); le(w, 4, 4); tag(w, "abcd"); } return w; }
+
+// ---- scenarios: each in its own non-inlined function so that its locals occupy freshly painted stack ------------------------------
+#define SCENARIO __attribute__((noinline)) static void
+SCENARIO sc_map_default() { Map m; Stream::DynamicMemoryWriter w; m.Write(w); observe("map.default.write", bytes(w)); observe("map.default.fields", dump(m)); }
+SCENARIO sc_art_default() { ArtFile a; Stream::DynamicMemoryWriter w; a.Write(w); observe("prt.default.write", bytes(w)); observe("prt.default.fields", dump(a)); }
+SCENARIO sc_bmp_factory() { for (int bc : {1, 4, 8}) { auto b = BitmapFile::CreateIndexed((uint16_t)bc, 5, -3); Stream::DynamicMemoryWriter w; b.WriteIndexed(w); observe("bmp.factory." + std::to_string(bc) + ".write", bytes(w)); observe("bmp.factory." + std::to_string(bc) + ".fields", dump(b)); } }
+SCENARIO sc_tileset() { auto b = BitmapFile::CreateIndexed(8, 32, 32); for (std::size_t i = 0; i < b.pixels.size(); ++i) b.pixels[i] = (uint8_t)(i * 7); for (std::size_t i = 0; i < b.palette.size(); ++i) b.palette[i] = Color{(uint8_t)i, (uint8_t)(255 - i), 7, (uint8_t)(i * 3)};
+	Stream::DynamicMemoryWriter w; Tileset::WriteCustomTileset(w, b); Bytes custom = bytes(w); observe("tileset.custom.write", custom);
+	Stream::MemoryReader r(custom.data(), custom.size()); auto back = Tileset::ReadTileset(r); observe("tileset.custom.parse.fields", dump(back)); }
+SCENARIO sc_map_parse() { Bytes in = full_map(); Stream::MemoryReader r(in.data(), in.size()); Map m = Map::ReadMap(r); observe("map.parse.fields", dump(m));
+	Stream::DynamicMemoryWriter w; m.Write(w); observe("map.parse.rewrite", bytes(w)); m.TrimTilesetSources(); m.SetLavaPossible(true, 1, 2); Stream::DynamicMemoryWriter w2; m.Write(w2); observe("map.parse.edit.rewrite", bytes(w2)); }
+SCENARIO sc_map_parse_deep() { volatile char pad[3000]; for (auto& c : pad) c = (char)PAINT; Bytes in = full_map(); Stream::MemoryReader r(in.data(), in.size()); Map m = Map::ReadMap(r); observe("map.parse.fields", dump(m)); }   // same scenario from another stack depth
+SCENARIO sc_save_parse() { Bytes in = saved_game(); Stream::MemoryReader r(in.data(), in.size()); Map m = Map::ReadSavedGame(r); observe("save.parse.fields", dump(m)); }
+SCENARIO sc_bmp_parse() { Bytes in = bmp_image(); Stream::MemoryReader r(in.data(), in.size()); auto b = BitmapFile::ReadIndexed(r); observe("bmp.parse.fields", dump(b));
+	Stream::DynamicMemoryWriter w; b.WriteIndexed(w); observe("bmp.parse.rewrite", bytes(w)); b.InvertScanLines(); Stream::DynamicMemoryWriter w2; b.WriteIndexed(w2); observe("bmp.parse.flip.rewrite", bytes(w2)); }
+SCENARIO sc_prt_parse() { Bytes in = prt_image(); Stream::MemoryReader r(in.data(), in.size()); ArtFile a = ArtFile::Read(r); observe("prt.parse.fields", dump(a)); Stream::DynamicMemoryWriter w; a.Write(w); observe("prt.parse.rewrite", bytes(w)); }
+SCENARIO sc_vol(bool reversed, bool dotslash) { std::string d = "vin"; spit(d + "/b.txt", "BBBBB"); spit(d + "/A_.x", "12"); spit(d + "/sub/ab", ""); spit(d + "/sub/Zz9", std::string(131073, 'q')); std::string pre = dotslash ? "./" : "";
+	std::vector<std::string> in{pre + d + "/b.txt", pre + d + "/A_.x", pre + d + "/sub/ab", pre + d + "/sub/Zz9"}; if (reversed) std::reverse(in.begin(), in.end()); std::string out = "o.vol"; fs::remove(out); Archive::VolFile::CreateArchive(out, in); observe("vol.create", slurp(out));
+	Archive::VolFile v(out); observe("vol.listing", dump(v)); v.ExtractFile(2, "ex.bin"); observe("vol.extract", slurp("ex.bin")); auto st = v.OpenStream(3); Bytes sb(st->Length()); st->Read(sb.data(), sb.size()); observe("vol.stream", sb); }
+SCENARIO sc_clm(bool reversed) { std::string d = "cin"; spit(d + "/t1.wav", wav("AAAA", false)); spit(d + "/T2.wav", wav("BBBBBB", true)); spit(d + "/t_3.wav", wav("", false)); std::vector<std::string> in{d + "/t1.wav", d + "/T2.wav", d + "/t_3.wav"}; if (reversed) std::reverse(in.begin(), in.end());
+	std::string out = "o.clm"; fs::remove(out); Archive::ClmFile::CreateArchive(out, in); observe("clm.create", slurp(out)); Archive::ClmFile c(out); observe("clm.listing", dump(c)); c.ExtractFile(1, "ex.wav"); observe("clm.extract", slurp("ex.wav")); }
+SCENARIO sc_files() { Map m; m.Write("m.map"); observe("map.default.write.file", slurp("m.map")); auto b = BitmapFile::CreateIndexed(4, 9, 2); b.WriteIndexed("b.bmp"); observe("bmp.factory.write.file", slurp("b.bmp")); ArtFile a; a.Write("a.prt"); observe("prt.default.write.file", slurp("a.prt")); }
+
+int main(int argc, char** argv) {
+	for (int i = 1; i + 1 < argc; ++i) { std::string a = argv[i], v = argv[i + 1]; if (a == "--env") ENVN = v; else if (a == "--paint") PAINT = (unsigned char)atoi(v.c_str()); else if (a == "--workdir") WORK = v; }
+	fs::create_directories(WORK); fs::current_path(WORK);
+	std::cout << json{{"e", "Reset"}, {"scenario", "environment " + ENVN}}.dump() << std::endl;
+	paint(); sc_map_default(); paint(); sc_art_default(); paint(); sc_bmp_factory(); paint(); sc_tileset(); paint(); sc_map_parse(); paint(); sc_map_parse_deep();
+	paint(); sc_save_parse(); paint(); sc_bmp_parse(); paint(); sc_prt_parse(); paint(); sc_files();
+	for (int k = 0; k < 4; ++k) { paint(); sc_vol(k & 1, k & 2); }
+	for (int k = 0; k < 2; ++k) { paint(); sc_clm(k); }
+	return 0;
+}
